@@ -517,7 +517,8 @@ LoopOnIterator:
 
 		if userRelation == "" {
 			for _, f := range req.GetUserFilters() {
-				if f.GetType() == userObjectType {
+				// an object (or typed wildcard) only matches a filter on its type, not a userset filter type#relation
+				if f.GetType() == userObjectType && f.GetRelation() == "" {
 					user := tuple.StringToUserProto(tuple.BuildObject(userObjectType, userObjectID))
 
 					concurrency.TrySendThroughChannel(ctx, foundUser{
